@@ -225,6 +225,9 @@ pub(super) fn complex_borrow_check(
                     // some of those nodes.
                     if unblocked_any_node {
                         strategy_on_block = StrategyOnBlock::Park;
+                        // The next round of cloning must prove its own worth:
+                        // if it can't unblock anything, we are stuck for good.
+                        unblocked_any_node = false;
                     } else {
                         strategy_on_block = StrategyOnBlock::Error;
                     }
